@@ -273,8 +273,14 @@ class CylindricalSymGrid(GridBase):
     def difference_vector(
         self, p1: FloatingArray, p2: FloatingArray, *, coords: CoordsType = "grid"
     ) -> FloatingArray:
+        # periodicity flags and bounds refer to the Cartesian components (x, y, z)
+        bounds_z = self.axes_bounds[1]
         return self._difference_vector(
-            p1, p2, coords=coords, periodic=self.periodic, axes_bounds=self.axes_bounds
+            p1,
+            p2,
+            coords=coords,
+            periodic=[False, False, self.periodic[1]],
+            axes_bounds=(bounds_z, bounds_z, bounds_z),
         )
 
     def get_line_data(
